@@ -5,3 +5,4 @@ pub mod sni;
 pub mod sniff;
 pub mod iomodel;
 pub mod timeout;
+pub mod reqgrammar;
